@@ -306,7 +306,7 @@ theorem namedMatches_toHash {t : OType} {vs : List Val} (hw : WF t) (hreq : requ
   · intro e he
     obtain ⟨i, a, h1, h2, h3⟩ := mem_toHash he
     rw [h3, find_of_nodup hw.nodup h1]
-    exact allInst_get hall h1 h2
+    exact inst_tyInit _ _ (allInst_get hall h1 h2)
   · intro a ha
     obtain ⟨i, hi⟩ := List.getElem?_of_mem ha
     by_cases hopt : a.optional = true
@@ -386,7 +386,7 @@ theorem namedMatches_initHash {o : Obj} (hw : WF o.typ) (hv : Valid o) :
   · intro e he
     obtain ⟨i, a, h1, h2, h3⟩ := mem_mvh he
     rw [h3, find_of_nodup hw.nodup h1]
-    exact allInst_get hv.inst h1 h2
+    exact inst_tyInit _ _ (allInst_get hv.inst h1 h2)
   · intro a ha
     obtain ⟨i, hi⟩ := List.getElem?_of_mem ha
     by_cases hopt : a.optional = true
